@@ -134,6 +134,8 @@ def cases(tier, seed):
         yield ("history", name, None)
         yield ("lists-arrays-literals", name, None)
         yield ("dispatch", name, None)
+        yield ("dispatch-after-failure", name, None)
+        yield ("pairs-and-frame", name, None)
 
 
 def check_case(case):
@@ -429,6 +431,91 @@ def check_case(case):
             return (f"{pname}.cache-identity", f"{case!r}: equal primitive parameters gave different device calls", w)
         if calls[0] is calls[1] or calls[4] is calls[5]:
             return (f"{pname}.cache-conflates", f"{case!r}: different primitive parameters share one device call", w)
+        return None
+    if kind == "pairs-and-frame":
+        # two different satisfiable requests in ONE compile, in both orders: each instance gets the device it gets when
+        # compiled alone (equal parameters <=> same call); the parameter objects the designer holds are left as they were
+        sat = [r for r in mos_requests("quick") if len(P["mos"](h.Mos(**r).params)) == 1]
+        alone = {}
+        for r in sat:
+            t = design(h.Mos(**r), depth=1, shared=False)
+            try:
+                P["compile"](t)
+            except Exception as e:
+                return (f"{pname}.pairs.raises", f"{r}: {type(e).__name__}: {str(e)[:100]}", w)
+            alone[tuple(sorted((k, v.name) for k, v in r.items()))] = [x for pth, x in leaf_targets(t).items() if pth[-1] == "dev"][0]
+        import dataclasses as _dc
+        for r1 in sat:
+            for r2 in sat:
+                if r1 == r2:
+                    continue
+                c1, c2 = h.Mos(**r1), h.Mos(**r2)
+                before = [{f.name: getattr(c.params, f.name) for f in _dc.fields(c.params)} for c in (c1, c2)]
+                top = h.Module(name="PairTop")
+                top.d, top.g, top.s, top.b = h.Signals(4)
+                top.x1 = c1(d=top.d, g=top.g, s=top.s, b=top.b)
+                top.x2 = c2(d=top.d, g=top.g, s=top.s, b=top.b)
+                try:
+                    P["compile"](top)
+                except Exception as e:
+                    return (f"{pname}.pairs.raises", f"{r1} then {r2}: {type(e).__name__}: {str(e)[:100]}", w)
+                for c, b4 in zip((c1, c2), before):
+                    try:
+                        now = {f.name: getattr(c.params, f.name) for f in _dc.fields(c.params)}
+                    except AttributeError as e:
+                        now = f"unreadable ({e})"
+                    if now != b4:
+                        return (f"{pname}.frame.parameters", f"compile changed the designer's parameter object: {b4} -> {now}", w)
+                for iname, r in (("x1", r1), ("x2", r2)):
+                    got = top.instances[iname].of
+                    want = alone[tuple(sorted((k, v.name) for k, v in r.items()))]
+                    if not (got == want and got.module is want.module):
+                        return (f"{pname}.pairs.device", f"{r1} then {r2} in one compile: {iname} became {got.module.name} "
+                                                         f"{got.params}, alone it becomes {want.module.name} {want.params}", w)
+        return None
+    if kind == "dispatch-after-failure":
+        # a compile that raises (no such device) leaves the PDK registry as it was: the default still decides
+        import hdl21.pdk as hp
+        mods = {n: next((m for m in hp.pdk._mgr.modules if m.__name__.startswith(d["pkg"].__name__)), None)
+                for n, d in pdks().items()}
+        mine = mods[pname]
+        call = h.Mos(tp=MosType.NMOS, family=MosFamily.CORE, vth=MosVth.STD)
+        unsat = h.Mos(tp=MosType.PMOS, family=MosFamily.NONE, vth=MosVth.ULTRA_LOW, model="NO_SUCH_MODEL")
+        ref = design(call, depth=1, shared=False)
+        P["compile"](ref)
+        want = [t for pth, t in leaf_targets(ref).items() if pth[-1] == "dev"][0]
+        old = hp.pdk._mgr.default
+        try:
+            for other, omod in mods.items():
+                if other == pname or omod is None or pdks()[other]["mos"](unsat.params):
+                    continue          # (the sample PDK maps every request: it cannot be made to fail this way)
+                for how in ("module", "name", "default"):
+                    hp.set_default(omod if how == "default" else mine)
+                    try:
+                        if how == "default":
+                            hp.compile(design(unsat, depth=1, shared=False))
+                        else:
+                            hp.compile(design(unsat, depth=1, shared=False), pdk=omod if how == "module" else omod.__name__)
+                    except Exception:
+                        pass
+                    else:
+                        return (f"pdk.compile.accepts-unsatisfiable", f"{other} compiled a request no device satisfies", w)
+                    hp.set_default(mine)
+                    if hp.default() is not mine:
+                        return ("pdk.default.after-failure", f"after a failed compile to {other} (by {how}), default() is "
+                                                              f"{getattr(hp.default(), '__name__', None)} although {pname} was set", w)
+                    top = design(call, depth=1, shared=False)
+                    try:
+                        hp.compile(top)
+                    except Exception as e:
+                        return ("pdk.compile.after-failure", f"compile by default after a failed compile to {other}: "
+                                                              f"{type(e).__name__}: {str(e)[:100]}", w)
+                    dev = [t for pth, t in leaf_targets(top).items() if pth[-1] == "dev"][0]
+                    if not (isinstance(dev, h.ExternalModuleCall) and dev.module is want.module):
+                        return ("pdk.compile.after-failure", f"default {pname} set, but after a failed compile to {other} "
+                                                              f"(by {how}) the device is {getattr(getattr(dev, 'module', None), 'name', dev)}", w)
+        finally:
+            hp.pdk._mgr.default = old
         return None
     if kind == "dispatch":
         import hdl21.pdk as hp
